@@ -37,6 +37,8 @@ def main():
     ok_t = C.run_translator(bs) if ok_h else False
     if spec.get("engine"):
         C.build_engine(bs)
+    if spec.get("trace"):
+        C.build_engine_trace(bs)
     # a translator failure is a broken tie; the previously generated constants (if any) are still
     # used to search for a concrete failing input
     lean_ok = C.lake_build(bs, ["wvm"]) if ok_h else False
